@@ -162,6 +162,8 @@ pub struct Shared<'a> {
     pub stop: &'a AtomicBool,
     pub known: &'a [Known],
     pub tier: Tier,
+    /// multiplier applied to the case counts of generated sub-checks (Property.scale, VERIF_CASE_SCALE)
+    pub scale: f64,
 }
 
 #[derive(Default)]
@@ -320,7 +322,7 @@ where
         tier.pick(self.quick, self.thorough) as u64
     }
     fn run_worker(&self, worker: usize, n_workers: usize, seed: u64, prop: &str, sh: &Shared) -> WorkerResult {
-        let total = self.total_cases(sh.tier);
+        let total = ((self.total_cases(sh.tier) as f64) * sh.scale).round().max(1.0) as u64;
         let share = (total / n_workers as u64 + if (worker as u64) < total % n_workers as u64 { 1 } else { 0 }) as u32;
         let mut res = WorkerResult::default();
         if share == 0 {
@@ -549,6 +551,31 @@ pub struct Property {
     pub assumptions: Vec<&'static str>,
 }
 
+/// Case-count multipliers (quick, thorough) per property, applied to every generated sub-check and to the
+/// floors.  The modules state their base counts; the multipliers were set after measuring the quick tier on
+/// 16 idle cores so that each quick check does 15-45 s of fixed work (DESIGN §9.4).
+pub fn case_scale(id: &str, tier: Tier) -> f64 {
+    let (q, t) = match id {
+        "C03" => (2.0, 1.0),
+        "C04" => (10.0, 3.0),
+        "C06" => (3.0, 1.0),
+        "C07" => (15.0, 4.0),
+        "C08" => (8.0, 2.0),
+        "C09" => (8.0, 3.0),
+        "C11" => (10.0, 2.0),
+        "C12" => (2.0, 1.0),
+        "C13" => (4.0, 1.0),
+        "C15" => (4.0, 1.0),
+        "C17" => (4.0, 1.0),
+        "C19" => (6.0, 1.0),
+        "C20" => (3.0, 1.0),
+        _ => (1.0, 1.0),
+    };
+    let base = tier.pick(q, t);
+    let env = std::env::var("VERIF_CASE_SCALE").ok().and_then(|s| s.parse::<f64>().ok()).unwrap_or(1.0);
+    base * env
+}
+
 pub struct RunOpts {
     pub tier: Tier,
     pub seed: u64,
@@ -674,7 +701,8 @@ pub fn run_property(prop: &Property, opts: &RunOpts) -> i32 {
 
     // 3. generated search
     let stop = AtomicBool::new(!violations.is_empty());
-    let sh = Shared { stop: &stop, known: &known, tier: opts.tier };
+    let scale = case_scale(prop.id, opts.tier);
+    let sh = Shared { stop: &stop, known: &known, tier: opts.tier, scale };
     let mut total = WorkerResult::default();
     let mut per_sub: BTreeMap<String, Value> = BTreeMap::new();
     for sub in &prop.subs {
@@ -771,6 +799,7 @@ pub fn run_property(prop: &Property, opts: &RunOpts) -> i32 {
                 "starved_classes": starved,
                 "exhaustive": false,
                 "threads": opts.threads,
+                "case_scale": scale,
             },
             "assumptions": prop.assumptions,
             "wall_s": wall,
